@@ -48,7 +48,18 @@ type Log = Arc<Mutex<Vec<Rec>>>;
 
 fn push(log: &Log, h: &Handle, node: usize, k: K) {
     let t = vnow().as_nanos() as u64;
-    h.event(format!("n{node} {k:?}"));
+    let mut line = format!("n{node} {k:?}");
+    if line.len() > 400 {
+        // oversize keys / values: keep the trace readable, the length still distinguishes
+        let len = line.len();
+        let mut cut = 300;
+        while !line.is_char_boundary(cut) {
+            cut -= 1;
+        }
+        line.truncate(cut);
+        line.push_str(&format!("...[{len} chars]"));
+    }
+    h.event(line);
     log.lock().unwrap().push(Rec { t, node, k });
 }
 
@@ -198,6 +209,14 @@ impl Prop for C16 {
                 _ => json!({"op": "get_providers", "key": key}),
             };
             let mut op = op;
+            // sizes around the 70 KiB message limit of the Kademlia codec: an oversize request is
+            // refused by the local framing layer after the substream has been opened (write failure)
+            if rng.chance(1, 6) {
+                op["value_len"] = json!(*rng.pick(&[1000u64, 60_000, 71_680, 80_000]));
+            }
+            if rng.chance(1, 10) {
+                op["key_len"] = json!(*rng.pick(&[300u64, 71_680, 80_000]));
+            }
             op["at_ms"] = json!(at);
             op["node"] = json!(i);
             op["c"] = json!(c);
@@ -328,8 +347,16 @@ impl Prop for C16 {
                             continue;
                         }
                         let Some(tx) = &drv[i] else { continue };
-                        let key = o["key"].as_str().unwrap_or("k1").to_string();
-                        let value = format!("v-{}-{}", i, o["c"].as_u64().unwrap_or(0)).into_bytes();
+                        let mut key = o["key"].as_str().unwrap_or("k1").to_string();
+                        if let Some(l) = o["key_len"].as_u64() {
+                            while key.len() < l as usize {
+                                key.push('K');
+                            }
+                        }
+                        let mut value = format!("v-{}-{}", i, o["c"].as_u64().unwrap_or(0)).into_bytes();
+                        if let Some(l) = o["value_len"].as_u64() {
+                            value.resize((l as usize).max(value.len()), b'.');
+                        }
                         let cmd = match o["op"].as_str().unwrap_or("") {
                             "find_node" => Cmd::FindNode { target: (o["target"].as_u64().unwrap_or(1) as usize).clamp(1, total) },
                             "put" => Cmd::Put { key, value, quorum: o["quorum"].clone() },
@@ -416,9 +443,10 @@ fn check(log: &[Rec], dead: &BTreeMap<usize, bool>, n: usize, killing: bool, h: 
         }
         for (qid, (r, terminals)) in issued.iter() {
             let K::Issued { kind, key, value, quorum, peers, .. } = &r.k else { continue };
+            let kd = if key.len() > 40 { format!("{}..[{} bytes]", &key[..8], key.len()) } else { key.clone() };
             if *terminals == 0 {
                 let feature = if peers.iter().any(|p| *p > n) { ":ghost-target" } else { "" };
-                return Some((format!("c16:no-terminal:{kind}{feature}"), format!("node {i}: {kind}({key}) {qid} issued at {} has no terminal event at the horizon", ts(r.t))));
+                return Some((format!("c16:no-terminal:{kind}{feature}"), format!("node {i}: {kind}({kd}) {qid} issued at {} has no terminal event at the horizon", ts(r.t))));
             }
             // success must mean the data was actually sent to enough peers
             if killing {
@@ -442,14 +470,14 @@ fn check(log: &[Rec], dead: &BTreeMap<usize, bool>, n: usize, killing: bool, h: 
                         1
                     };
                     if receivers.len() < required {
-                        return Some((format!("c16:put-success-without-quorum:{kind}"), format!("node {i}: {kind}({key}) {qid} quorum {quorum} reported PutRecordSuccess but only {} node(s) {:?} ever received the record (required: {required}; given peers {:?})", receivers.len(), receivers, peers)));
+                        return Some((format!("c16:put-success-without-quorum:{kind}"), format!("node {i}: {kind}({kd}) {qid} quorum {quorum} reported PutRecordSuccess but only {} node(s) {:?} ever received the record (required: {required}; given peers {:?})", receivers.len(), receivers, peers)));
                     }
                     h.probe("put-success-verified");
                 }
                 "start_providing" => {
                     let receivers: Vec<usize> = (1..=n).filter(|j| *j != i && log.iter().any(|x| x.node == *j && matches!(&x.k, K::IncomingProvider { key: k2, provider } if k2 == key && *provider == i))).collect();
                     if receivers.is_empty() {
-                        return Some(("c16:provide-success-without-quorum".into(), format!("node {i}: start_providing({key}) {qid} quorum {quorum} reported AddProviderSuccess but no node ever received the provider record")));
+                        return Some(("c16:provide-success-without-quorum".into(), format!("node {i}: start_providing({kd}) {qid} quorum {quorum} reported AddProviderSuccess but no node ever received the provider record")));
                     }
                     h.probe("provide-success-verified");
                 }
